@@ -31,7 +31,12 @@ func goEnv() []string {
 	return append(os.Environ(), "GOFLAGS=-mod=mod", "GOPROXY=off", "GOSUMDB=off", "GOTOOLCHAIN=local")
 }
 
-func NewReplayer(sub string) (*Replayer, error) {
+func NewReplayer(sub string) (*Replayer, error) { return newReplayer(sub, false) }
+
+// NewRaceReplayer builds the native test binary with the race detector.
+func NewRaceReplayer(sub string) (*Replayer, error) { return newReplayer(sub, true) }
+
+func newReplayer(sub string, race bool) (*Replayer, error) {
 	start := time.Now()
 	target := repoDir
 	if sub == "opgen" {
@@ -72,7 +77,12 @@ func NewReplayer(sub string) (*Replayer, error) {
 	ovPath := filepath.Join(tmp, "overlay.json")
 	os.WriteFile(ovPath, ovj, 0o644)
 	r.bin = filepath.Join(tmp, "replay.test")
-	cmd := exec.Command("go", "test", "-c", "-tags", "verif", "-vet=off", "-overlay", ovPath, "-o", r.bin, ".")
+	args := []string{"test", "-c", "-tags", "verif", "-vet=off", "-overlay", ovPath, "-o", r.bin}
+	if race {
+		args = append(args, "-race")
+	}
+	args = append(args, ".")
+	cmd := exec.Command("go", args...)
 	cmd.Dir = target
 	cmd.Env = goEnv()
 	out, err := cmd.CombinedOutput()
@@ -128,6 +138,43 @@ func (r *Replayer) Run(path string) (string, string) {
 	return strings.Join(keep, "\n"), verdict
 }
 
+// RunRace runs the concurrent stress test under the race detector.
+// Verdicts: reproduced (race reported or a result failed validation) | passed | error.
+func (r *Replayer) RunRace() (string, string) {
+	cmd := exec.Command(r.bin, "-test.run", "^TestVerifRace$", "-test.count=1", "-test.timeout=600s")
+	cmd.Dir = r.cwd
+	cmd.Env = append(goEnv(), "GOSYM_RACE=1", "GORACE=halt_on_error=0")
+	out, err := cmd.CombinedOutput()
+	text := string(out)
+	races := strings.Count(text, "WARNING: DATA RACE")
+	var keep []string
+	for _, l := range strings.Split(text, "\n") {
+		if strings.HasPrefix(l, "RACE-RESULT") {
+			keep = append(keep, l)
+		}
+	}
+	summary := fmt.Sprintf("data races reported: %d; %s", races, strings.Join(keep, " / "))
+	if races > 0 || strings.Contains(text, "RACE-RESULT: invalid") {
+		// keep the first race report
+		if i := strings.Index(text, "WARNING: DATA RACE"); i >= 0 {
+			rep := text[i:]
+			if len(rep) > 1500 {
+				rep = rep[:1500]
+			}
+			summary += "\n" + rep
+		}
+		return summary, "reproduced"
+	}
+	if strings.Contains(text, "RACE-RESULT: clean") {
+		return summary, "passed"
+	}
+	_ = err
+	if len(text) > 1500 {
+		text = text[:1500]
+	}
+	return text, "error"
+}
+
 func cmdReplay(args []string) int {
 	if len(args) < 1 {
 		fmt.Fprintln(os.Stderr, "usage: gosym replay <file>")
@@ -146,6 +193,21 @@ func cmdReplay(args []string) int {
 	sub := "spg"
 	if strings.HasPrefix(rf.Harness, "HO") {
 		sub = "opgen"
+	}
+	if rf.Expect == "race" {
+		rp, err := NewRaceReplayer(sub)
+		if err != nil {
+			fmt.Fprintln(os.Stderr, err)
+			return 2
+		}
+		defer rp.Close()
+		out, verdict := rp.RunRace()
+		fmt.Println(out)
+		fmt.Println("verdict:", verdict)
+		if verdict == "reproduced" {
+			return 1
+		}
+		return 0
 	}
 	rp, err := NewReplayer(sub)
 	if err != nil {
